@@ -155,10 +155,18 @@ def r3(ctx):
         # -x is an append option
         adds = [c for c in repo.func(short, "_main" if short == "__main__" else "_build_parser").calls() if isinstance(c.func, ast.Attribute) and c.func.attr == "add_argument" and any(isinstance(a, ast.Constant) and a.value == "-x" for a in c.args)]
         ok = len(adds) == 1 and {k.arg: u(k.value) for k in adds[0].keywords}.get("dest") == "'excludes'" and {k.arg: u(k.value) for k in adds[0].keywords}.get("action") == "'append'"
-        ctx.check(ok, f"{short}:-x:append-to-excludes", "-x/--exclude must append to `excludes`", f.loc())
+        ctx.soft(ok, f"{short}:-x:append-to-excludes", "-x/--exclude must append to `excludes`", f.loc())
+        if adds:
+            extra = sorted(k.arg for k in adds[0].keywords if k.arg not in ("dest", "action", "default", "metavar", "help"))
+            ctx.check(not extra, f"{short}:-x:verbatim", f"-x/--exclude is registered with {extra}: a pattern must reach the CodeBase exactly as typed (gitignore syntax: trailing '/', '//' and './' are significant), like the patterns of the analysis file", f.loc(adds[0]))
     # cbi-cov: -x only
     f = repo.func("coverage.__main__", "_compute")
     ctor = [c for c in f.calls() if (dotted(c.func) or "").split(".")[-1] == "CodeBase"]
     ok = len(ctor) == 1 and u(next((k.value for k in ctor[0].keywords if k.arg == "exclude_patterns"), ast.Constant(value=None))) == "args.excludes"
     ctx.check(ok, f"{f.key}:exclude-list", "cbi-cov must pass its -x patterns to the CodeBase", f.loc())
+    bp = repo.func("coverage.__main__", "_build_parser")
+    adds = [c for c in bp.calls() if isinstance(c.func, ast.Attribute) and c.func.attr == "add_argument" and any(isinstance(a, ast.Constant) and a.value == "-x" for a in c.args)]
+    if adds:
+        extra = sorted(k.arg for k in adds[0].keywords if k.arg not in ("dest", "action", "default", "metavar", "help"))
+        ctx.check(not extra, "coverage.__main__:-x:verbatim", f"-x/--exclude is registered with {extra}", bp.loc(adds[0]))
     ctx.floor(5)
